@@ -16,3 +16,4 @@ def run(rep):
     cr.rule_skel(rep, "C08.skel")
     cr.rule_tags(rep)
     br.rule_tags_ast(rep, "C08.ast")
+    cr.rule_input(rep, "C08.isolation")
